@@ -205,7 +205,9 @@ theorem nextToken_trivia {buf : Bytes} {s s' : State} (h : nextToken buf false s
   · rename_i pos comments space he htl
     have inv := triviaLoop_trivia (p0 := s.pos) htl (by simp [TriviaOK]) (by simp [lastEnd])
     split at h
-    · cases h; exact inv
+    · split at h
+      · cases h
+      · cases h; exact inv
     · split at h
       · cases h
       · cases h
